@@ -190,6 +190,12 @@ class Interp:
             return None
         if k == 'm':
             return self.method(n, fr)
+        if k == 'qm':
+            # receiver?.method(...): null receiver gives null, anything
+            # else - empty and zero values included - is a method call
+            if self.ev(n[1], fr) is None:
+                return None
+            return self.method(('m',) + tuple(n[1:]), fr)
         if k == 'let':
             new = fr.child()
             for i, e in enumerate(n[1], 1):
@@ -271,7 +277,7 @@ class Interp:
         raise ValueError(op)
 
     def method(self, n, fr):
-        _, recv, name, args = n
+        _, recv, name, args = n[:4]     # n[4], if any: keyword spellings
         c = self.ev(recv, fr)
         if not is_seq(c):
             raise ModelError('method on non-collection')
@@ -300,6 +306,12 @@ class Interp:
                     else:
                         yield r
             return LazySeq(sm())
+        if name == 'toDict':
+            out = {}
+            for x in c:
+                k = hkey(self.lam(args[0], fr, [x]))
+                out[k] = self.lam(args[1], fr, [x]) if len(args) > 1 else x
+            return out
         if name == 'first':
             for x in c:
                 return x
@@ -381,9 +393,14 @@ def render(n):
     if k == 'switch':
         return 'switch(%s)' % ', '.join('%s => %s' % (render(a), render(b))
                                         for a, b in n[1])
-    if k == 'm':
-        return '%s.%s(%s)' % (atom(n[1]), n[2], ', '.join(
-            render(a) for a in n[3]))
+    if k in ('m', 'qm'):
+        names = n[4] if len(n) > 4 else ()
+        parts = []
+        for i, a in enumerate(n[3]):
+            kw = names[i] if i < len(names) else None
+            parts.append(('%s => %s' % (kw, render(a))) if kw else render(a))
+        return '%s%s%s(%s)' % (atom(n[1]), '.' if k == 'm' else '?.', n[2],
+                               ', '.join(parts))
     if k == 'let':
         parts = [render(e) for e in n[1]] + [
             '%s => %s' % (name, render(e)) for name, e in n[2]]
